@@ -4,6 +4,7 @@
 mod common;
 mod bvgen;
 mod c01;
+mod c04;
 mod c17;
 
 use common::*;
@@ -26,6 +27,7 @@ fn main() {
     out.stat_n(if cfg!(target_feature = "bmi2") { "build.bmi2" } else { "build.portable" }, 1);
     match prop {
         "C01" => c01::run(&mut rng, &mut out, thorough),
+        "C04" => c04::run(&mut rng, &mut out, thorough),
         "C17" => c17::run(&mut rng, &mut out, thorough, variant),
         _ => {
             eprintln!("unknown property {}", prop);
